@@ -143,6 +143,7 @@ pub fn check(cfg: &ChunkerCfg, data: &Arc<Vec<u8>>, reads: &ReadScript, rec: &mu
     rec.class_if(data.len() < cfg.window, "shorter_than_window");
     rec.class_if(data.len() > 1024 * 1024, "over_1MiB");
     rec.class_if(want.iter().any(|c| c.len > 1024 * 1024), "chunk_over_1MiB");
+    rec.class_if(want.iter().any(|c| c.len > 3 * 1024 * 1024), "chunk_over_3MiB");
     rec.class_if(
         data.windows(cfg.window.max(1) + 2).any(|w| w.iter().all(|b| *b == 0)) && cfg.algo == Algo::BuzHash,
         "buz_zero_run_ge_window",
@@ -159,7 +160,14 @@ pub fn case_strategy() -> impl Strategy<Value = Case> {
         .prop_map(|(cfg, source, reads)| Case { cfg, source, reads })
 }
 fn large_case_strategy(max_seg: u32) -> impl Strategy<Value = Case> {
-    (
+    // one chunk of several MiB (a constant run is never cut by the hash; max chunk 16 MiB): the refill loop has to
+    // carry the scan state over many 1 MiB refills
+    let huge = (prop_oneof![Just(Algo::RollSum), Just(Algo::BuzHash)], 3_200_000u32..=5_500_000, any::<u32>(), 1u8..=255).prop_map(|(algo, n, seed, b)| Case {
+        cfg: ChunkerCfg { algo, bits: 15, min: 16 * 1024, max: 16 * 1024 * 1024, window: if algo == Algo::RollSum { 64 } else { 16 } },
+        source: vec![Seg::Random { n: 40_000, seed }, Seg::Const { b, n }, Seg::Random { n: 90_000, seed: seed ^ 3 }],
+        reads: ReadScript { sizes: vec![1 << 20, 65536], pending_every: 0 },
+    });
+    let general = (
         large_chunker_strategy(),
         prop::collection::vec(
             prop_oneof![
@@ -176,7 +184,8 @@ fn large_case_strategy(max_seg: u32) -> impl Strategy<Value = Case> {
             Just(ReadScript { sizes: vec![4096], pending_every: 0 }),
         ],
     )
-        .prop_map(|(cfg, source, reads)| Case { cfg, source, reads })
+        .prop_map(|(cfg, source, reads)| Case { cfg, source, reads });
+    prop_oneof![5 => general, 1 => huge]
 }
 
 pub fn run_case(c: &Case, rec: &mut CaseRec) -> Result<(), String> {
